@@ -747,6 +747,7 @@ func (e *Exec) makeMap(s *State, t types.Type) Value {
 // mapWF: facts every map satisfies (len >= 0; empty <=> no key); emitted where a map is ranged.
 func (e *Exec) mapLenFacts(s *State, m Value) {
 	e.assume("(>= " + e.mapLen(s, m) + " 0)")
+	e.assume("(=> (= " + m.S[0] + " 0) (= " + e.mapLen(s, m) + " 0))")
 }
 
 // ---- range over maps ---------------------------------------------------------------------------
